@@ -65,6 +65,7 @@ BUILTIN_NAMES = {
     "FileNotFoundError", "NotImplementedError", "AssertionError", "Exception", "enumerate", "open", "print",
     "dict", "list", "tuple", "sorted", "type", "object", "NotImplemented", "set", "zip", "any", "all", "sum",
     "hex", "repr", "id", "divmod", "property", "staticmethod", "classmethod", "iter", "next", "__name__",
+    "getattr", "setattr",
 }
 
 
@@ -82,6 +83,8 @@ class InterpBase:
         self.evc = itertools.count(1)      # order of logged stores / raises
         self.module_oids = set()           # ids of objects created at module level (shared between calls)
         self.call_seq = 0
+        self.fileops = []                  # file-system effects in program order
+        self.with_stack = []               # context values of the enclosing with-blocks
         self.byref_stack = []              # (call id, parameters passed by reference) of the calls being inlined
         self.handler_excs = []             # exception classes the enclosing handler bodies have caught (for a bare raise)
         self.obj_info = {}
@@ -370,7 +373,26 @@ class InterpBase:
         return C(e.value)
 
     def ev_JoinedStr(self, e, env, mod, fn):
-        return T("call", "fstring", (), ty="str")
+        # f"..{x}..": the literal pieces and str(x) of the plainly formatted values; anything the interpreter cannot
+        # evaluate quietly (messages of error paths, format specs) stays an opaque string
+        parts = []
+        self.quiet += 1
+        try:
+            sub = env.clone()
+            for v in e.values:
+                if isinstance(v, ast.Constant) and isinstance(v.value, str):
+                    parts.append(C(v.value))
+                elif isinstance(v, ast.FormattedValue) and v.conversion == -1 and v.format_spec is None:
+                    parts.append(T("call", "str", (self.ev(v.value, sub, mod, fn),), ty="str"))
+                else:
+                    return T("call", "fstring", (), ty="str")
+                if sub.dead:
+                    return T("call", "fstring", (), ty="str")
+        except Unsupported:
+            return T("call", "fstring", (), ty="str")
+        finally:
+            self.quiet -= 1
+        return T("call", "fstring", tuple(parts), ty="str")
 
     def ev_Lambda(self, e, env, mod, fn):
         return T("lambda", e, mod)
@@ -710,9 +732,14 @@ class InterpBase:
                 for k, v in base.a[0]:
                     if k == i:
                         return v
+                # a fully known dictionary without that key (same convention as .get() on it): the lookup raises
+                self.log_raise("KeyError", env, node, kind="key")
+                env.dead = True
+                return NONE
             self.log_raise("KeyError", env, node, kind="key")
             return T("call", "dictget", (base, i))
-        if base.k == "bcat" and i.k == "const" and isinstance(i.a[0], int) and i.a[0] >= 0 and len(base.a[0]) > 1:
+        if base.k == "bcat" and i.k == "const" and isinstance(i.a[0], int) and i.a[0] >= 0 and \
+                (len(base.a[0]) > 1 or (len(base.a[0]) == 1 and base.a[0][0].k != "bytes")):
             # index into a byte string under construction: resolve through the fixed-size prefix items
             pos = 0
             for n_, it_ in enumerate(base.a[0]):
